@@ -77,7 +77,17 @@ func (ls *LogScrubber) Write(b []byte) (n int, err error) {
 			return
 		}
 		fullLines := ls.buffer[:i+1]
-		_, err = ls.Output.Write(Scrub(fullLines))
+		// Scrub every line on its own, so that the result does not depend on
+		// how many lines one Write happened to complete (a match at the end
+		// of a line consumes the newline, which the address starting the next
+		// line needs as its left-hand delimiter).
+		var scrubbed []byte
+		for rest := fullLines; len(rest) > 0; {
+			j := bytes.IndexByte(rest, '\n')
+			scrubbed = append(scrubbed, Scrub(rest[:j+1])...)
+			rest = rest[j+1:]
+		}
+		_, err = ls.Output.Write(scrubbed)
 		if err != nil {
 			return
 		}
